@@ -35,5 +35,9 @@ fixed("C05","R11:K1:(*opset13.Conv).setPaddingWithAutoPad#1","8c885fd","x 1x1x6x
 fixed("C05","R11:K4:autopad:unknown-refused","1248e3a","auto_pad=BOGUS was computed as SAME_UPPER")
 fixed("C05","R21:attr-state:Conv","5448d1e","Conv.Apply stored input-derived defaults (pads, strides, dilations, kernel shape) in the operator: a second Apply on inputs of another rank reused them")
 known("C05","R11:K4:autopad:SAME_UPPER~VALID","auto_pad=VALID is computed with the SAME_UPPER padding (1x1x4x4 input, 3x3 kernel: output 4x4 instead of 2x2); TestConv and TestSetPaddingWithAutoPad pin the SAME_UPPER result for VALID, so no repair passes the unedited suite (demo: findings/c05_test.go)")
+fixed("C06","R8:LSTM:input_forget","1a3430a","LSTM node with input_forget=1 was computed with independent gates (attribute parsed, never read)")
+fixed("C06","R9c:LSTM:activations-length","1a02a55","LSTM with activations=['sigmoid'] panicked 'index out of range [1]' at Run (same for GRU with one, RNN with zero names)")
+fixed("C06","R9c:GRU:activations-length","1a02a55","GRU with a one-element activations list panicked at Run")
+fixed("C06","R9c:RNN:activations-length","1a02a55","RNN with an empty activations list panicked at Run")
 json.dump(F,open('/verif/known_findings.json','w'),indent=1)
 print(len(F),"entries")
